@@ -119,6 +119,12 @@ Proof.
   eapply in_all_nodes; [exact Hr|]. eapply by_inverters_incl; eauto.
 Qed.
 
+Lemma within_battery_pool : forall fb roots bids ts, battery_pool_terms fb roots bids = Some ts -> within roots ts.
+Proof.
+  intros fb roots bids ts H. unfold battery_pool_terms in H. destruct (forallb _ (all_nodes roots)); [|discriminate].
+  injection H as <-. apply within_by_inverters.
+Qed.
+
 Lemma ev_nodes_incl : forall n, incl (ev_nodes n) (nodes n).
 Proof.
   induction n as [i kids load IH| | | |] using node_ind'; intros x Hx; try (destruct Hx as [<-|[]]; apply nodes_self); try destruct Hx.
